@@ -32,6 +32,7 @@ RULE = (
 )
 RULE += ' Added in rounds 5-10: automatic radius under all transformations; coordinates 1e-12..3e-9 below voxel edges with a steered translation; dyadic samples exactly on voxel edges; costs of dijkstra / bellman-ford / dijkstra-exp paths compared between representations.'
 RULE += ' Round 13: centre-of-mass diffusivity (of the diffusing atoms and of all atoms) and the Haven ratio are compared across the transformations as well.'
+RULE += ' Round 14: 16 (1500) synthetic density volumes with one or two broad blobs: the sites recovered by Volume.to_structure(peaks=...) from the volume rolled by whole voxels are the translated sites.'
 ASSUMPTIONS = [
     'comparisons between two runs of the real code (metamorphic); floats at rtol 1e-9, integer arrays exactly',
     'RDF comparison is skipped (and counted) when a pair distance lies within 1e-7 A of a bin edge in the original representation',
@@ -66,7 +67,47 @@ def auto_pass(rep_, traj=None):
 
 
 def units(tier):
-    return [{'k': 'rand', 'i': i} for i in range(N_CASES[tier])]
+    # 'blob': sites recovered from a density volume (Volume.to_structure with given peaks) move with the origin
+    return [{'k': 'rand', 'i': i} for i in range(N_CASES[tier])] + [{'k': 'blob', 'i': i} for i in range(16 if tier == 'quick' else 1500)]
+
+
+def run_blob(unit, rng, ctx):
+    """One or two broad, well separated density blobs on a grid; the volume is rolled by whole voxels (= all atoms
+    translated); the sites recovered from the rolled volume are the translated sites."""
+    from gemdat.volume import Volume
+    from pymatgen.core import Lattice
+
+    kind, rot, m = geom.random_lattice(rng, lo=6.0, hi=11.0)
+    dims = rng.integers(34, 52, size=3)
+    n_blob = int(rng.integers(1, 3))
+    sig = rng.uniform(1.2, 2.5, size=n_blob)  # voxels; the 10 % contour lies 2.15 sigma <= 5.4 voxels from the peak
+    c0 = rng.integers(0, dims)
+    centres = [c0] if n_blob == 1 else [c0, (c0 + dims // 2 + rng.integers(-2, 3, size=3)) % dims]
+    amp = rng.uniform(0.7, 1.0, size=n_blob) * 5000
+    ax = [np.arange(d_) for d_ in dims]
+    data = np.zeros(tuple(dims))
+    for c_, s_, a_ in zip(centres, sig, amp):
+        d2 = sum((np.minimum(np.abs(x_ - cc_), d_ - np.abs(x_ - cc_)) ** 2).reshape([-1 if k_ == j_ else 1 for k_ in range(3)]) for j_, (x_, cc_, d_) in enumerate(zip(ax, c_, dims)))
+        data += a_ * np.exp(-d2 / (2 * s_ * s_))
+    data = np.round(data)
+    what = f'{kind} grid {tuple(int(d_) for d_ in dims)} blobs at {[tuple(int(x_) for x_ in c_) for c_ in centres]} sigma {np.round(sig, 2).tolist()} voxels'
+    peaks = np.array([[int(x_) for x_ in c_] for c_ in centres])
+    vol = Volume(data=data.copy(), lattice=Lattice(m))
+    with warnings.catch_warnings():
+        warnings.simplefilter('ignore')
+        base = np.asarray(vol.to_structure(specie='Li', peaks=peaks.copy()).frac_coords)
+    ok = ctx.check(len(base) == n_blob, f'{what}: to_structure found {len(base)} sites for {n_blob} blobs')
+    for _ in range(3 if ok else 0):
+        sh = rng.integers(0, dims)
+        vol2 = Volume(data=np.roll(data, tuple(int(x_) for x_ in sh), axis=(0, 1, 2)), lattice=Lattice(m))
+        with warnings.catch_warnings():
+            warnings.simplefilter('ignore')
+            got = np.asarray(vol2.to_structure(specie='Li', peaks=(peaks + sh) % dims).frac_coords)
+        want = np.mod(base + sh / dims, 1)
+        good = len(got) == len(want) and all(float(geom.circ_diff(got, w_[None, :]).max(axis=1).min()) <= 1e-9 for w_ in want)
+        ctx.check(good, f'{what}: after translating everything by {tuple(int(x_) for x_ in sh)} voxels the recovered sites are {np.round(got, 5).tolist()}, the translated sites are {np.round(want, 5).tolist()}', {'matrix': m})
+        ctx.count('sites_recovered_from_rolled_density_blobs')
+    ctx.case(f'blob{unit["i"]}', ok, sample={'kind': 'blob', 'grid': [int(d_) for d_ in dims], 'blobs': n_blob})
 
 
 def setup(ctx):
@@ -310,6 +351,8 @@ def classify_k1(rep: Rep, out, ctx, what):
 
 
 def run_unit(unit, rng, ctx):
+    if unit.get('k') == 'blob':
+        return run_blob(unit, rng, ctx)
     f = float(rng.choice([1.0, 0.5, 0.5]))
     sys_ = gen.make_site_system(rng, T=int(rng.integers(20, 60)), n_sites=int(rng.integers(2, 8)), n_atoms=int(rng.choice([1, 2, 2, 3, 3, 4])), inner_fraction=f, margin=0.04, p_move=float(rng.choice([0.2, 0.4])), n_framework=int(rng.integers(2, 5)), lo=5.0, hi=9.0)
     base_rep = Rep(sys_.matrix, np.mod(sys_.coords, 1), list(sys_.species_names), sys_.site_frac.copy(), list(sys_.labels), sys_.site_radius_arg, f, sys_.radii.copy(), sys_.time_step, sys_.temperature)
